@@ -26,6 +26,9 @@ type Path struct {
 	forks   [][]decision
 	reached map[string]bool
 	observe []string
+	strlits map[string]*Term
+	model   map[string]uint64 // a model of pc (nil: none known)
+	evalc   *evalCtx
 }
 
 type Obligation struct {
@@ -71,10 +74,25 @@ func (ex *Exec) assume(c *Term) {
 		return
 	}
 	ex.addPC(c)
+	if ex.hooks.concrete == nil && ex.modelHolds(c) != 1 {
+		// the model no longer covers the path condition: get a new one (also detects infeasible assumptions early)
+		vd, raw := ex.sol.Check(nil, ex.nondetVars())
+		switch vd {
+		case Unsat:
+			panic(pathEnd{"assumption infeasible"})
+		case Sat:
+			ex.setModel(raw, ex.nondetVars())
+		default:
+			ex.path.model = nil
+		}
+	}
 }
 
 func (ex *Exec) addPC(c *Term) {
 	p := ex.path
+	if p.model != nil && ex.modelHolds(c) != 1 {
+		p.model = nil // the remembered model does not cover the new conjunct
+	}
 	p.pc = append(p.pc, c)
 	ex.noteKnown(c, true)
 	ex.sol.Assert(c)
@@ -124,37 +142,53 @@ func (ex *Exec) branch(c *Term, pos token.Pos, fr *frame) bool {
 	if ex.hooks.concrete != nil {
 		panic(abortPath{"symbolic branch in concrete mode"})
 	}
-	vt, _ := ex.sol.Check(c, nil)
+	// model-guided: the side the current model satisfies is feasible without a query
+	mh := ex.modelHolds(c)
+	var vt, vf Verdict
+	var rawT map[string]string
+	vars := ex.nondetVars()
+	switch mh {
+	case 1:
+		vt = Sat
+		vf, _ = ex.sol.Check(ts.Not(c), nil)
+	case 0:
+		vf = Sat
+		vt, rawT = ex.sol.Check(c, vars)
+	default:
+		vt, rawT = ex.sol.Check(c, vars)
+		if vt == Unsat {
+			vf = Sat
+		} else {
+			vf, _ = ex.sol.Check(ts.Not(c), nil)
+		}
+	}
+	if vt == Unknown {
+		ex.hooks.unknownBr++
+	}
+	if vf == Unknown {
+		ex.hooks.unknownBr++
+	}
 	if vt == Unsat {
-		// the other side must hold on this path
+		// the other side must hold on this path (model unchanged: it satisfies not c)
 		p.taken = append(p.taken, decision{B: false})
 		p.pos++
 		ex.addPC(ts.Not(c))
 		return false
 	}
-	if vt == Unknown {
-		ex.hooks.unknownBr++
-	}
-	vf, _ := ex.sol.Check(ts.Not(c), nil)
-	if vf == Unknown {
-		ex.hooks.unknownBr++
-	}
 	if vf != Unsat {
-		if vt == Unknown && vf == Sat {
-			// prefer the side known to be feasible; still fork the unknown one
-			alt := append(append([]decision(nil), p.taken...), decision{B: true})
-			p.forks = append(p.forks, alt)
-			p.taken = append(p.taken, decision{B: false})
-			p.pos++
-			ex.addPC(ts.Not(c))
-			return false
-		}
 		alt := append(append([]decision(nil), p.taken...), decision{B: false})
 		p.forks = append(p.forks, alt)
 	}
 	p.taken = append(p.taken, decision{B: true})
 	p.pos++
 	ex.addPC(c)
+	if mh != 1 {
+		if rawT != nil {
+			ex.setModel(rawT, vars)
+		} else {
+			p.model = nil
+		}
+	}
 	return true
 }
 
@@ -240,19 +274,33 @@ func (ex *Exec) nondetVars() []*Term { return ex.path.nondets }
 
 // assertObl checks an obligation on the current path.
 func (ex *Exec) assertObl(c *Term, id string, kf string, region *Term) {
+	if kf == "" {
+		ex.assertOblN(c, id, nil, nil)
+		return
+	}
+	ex.assertOblN(c, id, []string{kf}, []*Term{region})
+}
+
+// assertOblN: an obligation with any number of known-finding regions (predicates over the harness inputs).
+func (ex *Exec) assertOblN(c *Term, id string, kfs []string, regions []*Term) {
 	h := ex.hooks
 	ts := ex.ts
-	ob := Obligation{ID: id, PathNo: h.pathNo, KF: kf}
-	if kf != "" && region != nil && h.kfOpen[kf] {
-		// (1) inside the region the known finding is looked for
-		inq := ts.And(region, ts.Not(c))
-		vd, model := ex.sol.Check(inq, ex.nondetVars())
-		if vd == Sat {
-			kob := Obligation{ID: id, PathNo: h.pathNo, KF: kf, InRegion: true, Verdict: "known-finding", Model: ex.completeModel(model)}
-			h.obls = append(h.obls, kob)
+	ob := Obligation{ID: id, PathNo: h.pathNo}
+	for i, kf := range kfs {
+		if !h.kfOpen[kf] {
+			continue
 		}
-		// (2) outside the region the property is asserted
-		c = ts.Or(region, c)
+		// (1) inside the region of an open finding the violation is looked for (and later replayed)
+		inq := ts.And(regions[i], ts.Not(c))
+		if !inq.IsConst() || inq.cBool() {
+			vd, model := ex.sol.Check(inq, ex.nondetVars())
+			if vd == Sat {
+				h.obls = append(h.obls, Obligation{ID: id, PathNo: h.pathNo, KF: kf, InRegion: true, Verdict: "known-finding", Model: ex.completeModel(model)})
+			}
+		}
+		// (2) outside the regions the property is asserted
+		c = ts.Or(regions[i], c)
+		ob.KF = kf
 	}
 	neg := ts.Not(c)
 	ob.Trivial = neg.IsConst()
